@@ -1,7 +1,7 @@
 """C18 - streaming output does not depend on how the LLM text is chunked.
 
-Domain   : text (pattern-aware alphabet) x {prefix, suffix, stop, piped?} x ALL 2^(n-1) chunkings
-           (short texts) or sampled chunkings (long texts), optional leading empty token.
+Domain   : text (pattern-aware alphabet, incl. literal backslash + letter pairs) x {prefix, suffix, stop, piped?}
+           x ALL 2^(n-1) chunkings (short texts) or sampled chunkings (long texts), optional leading empty token.
 Oracle   : (i) metamorphic - every chunking delivers the same concatenation and the same `completion`;
            (ii) reference string function ref(text) = strip prefix if present, cut at first stop,
                 else strip suffix if present;  (iii) completion == delivered.
@@ -23,7 +23,13 @@ RULE = (
     "texts over the alphabet {a,b,space,\\n,\",:,u,s,e,r} built as [prefix?] body [suffix?] [stop tail?] or "
     "unconstrained, x configs prefix in {None,'  \"','Bot message: \"'} suffix in {None,'\"'} stop in {[],['\"\\n'],"
     "['\\nuser ','\\nUser ']} - and, in one case of three, prefix/suffix/stop patterns that are themselves generated over {a,b,\\n} (1-4 "
-    "characters, up to 3 stop sequences in any list order) - direct or piped to an outer handler; for texts of <= 11 characters every one of the 2^(n-1) "
+    "characters, up to 3 stop sequences in any list order) - direct or piped to an outer handler; escape dimension (one case in "
+    "three of either kind, labels backslash / backslash+letter / backslash-in-pattern): bodies are built from atoms that add a lone "
+    "literal backslash, the letters n and t and the two-character pairs backslash+{n,t,r,\",u,backslash} to the alphabet, and "
+    "generated patterns and their texts are drawn over {backslash, one drawn escape letter, real newline or a}, so that a token "
+    "boundary falls between the backslash and the letter in some chunkings and not in others; the enumerated core runs 10 tiny "
+    "texts plus every backslash pair (bare, between letters, inside the quoted-message shape) under all 36 fixed configurations; "
+    "for texts of <= 11 characters every one of the 2^(n-1) "
     "chunkings is run, longer texts get 48 sampled chunkings; evaluations counts (text,config) cases, the extra key "
     "chunkings_run counts handler executions. Non-trivial = a pattern (prefix/suffix/stop, whole or a proper piece of "
     "it) occurs inside the body or prefix end and suffix are < 3 characters apart; distinct by (text, config)."
@@ -32,6 +38,8 @@ ASSUMPTIONS = [
     "tokens are non-empty except an optional leading empty token (an empty token is the handler's end-of-stream signal)",
     "every token arrives as on_llm_new_token(token, chunk=GenerationChunk(text=token)) followed by on_llm_end, as langchain does",
     "reference equality (ii) is not asserted where 'suffix first' and 'stop first' readings differ (counted as ambiguous)",
+    "the LLM text is a plain character sequence: a backslash followed by a letter is two literal characters for the handler "
+    "(translating escaped new lines is done later on the final utterance, not on the stream), so the reference copies them unchanged",
 ]
 
 PREFIXES = [None, '  "', 'Bot message: "']
@@ -51,6 +59,21 @@ WALL = {"quick": 150, "thorough": 1500}
 
 GEN_ALPHA = "ab\n"
 
+# Escape dimension: a literal BACKSLASH followed by a character that some layer could read as an escape sequence (escaped
+# new line, Windows path C:\new, LaTeX \table, JSON \" and \uXXXX). The handler must pass these two characters on
+# literally, wherever the token boundary falls (in particular between the backslash and the letter).
+BACKSLASH = "\\"
+ESC_LETTERS = 'ntr"u' + BACKSLASH
+ESC_ATOMS = [BACKSLASH + c for c in ESC_LETTERS]  # the two-character sequences \n \t \r \" \u \\ (backslash + letter)
+ESC_BODY_ATOMS = list(ALPHA) + [BACKSLASH, "n", "t"] + ESC_ATOMS * 2
+
+
+def _body(esc, alpha, max_size):
+    """Body text: plain characters, or (escape dimension) atoms that include a lone backslash and backslash+letter pairs."""
+    if not esc:
+        return st.text(st.sampled_from(alpha), max_size=max_size)
+    return st.lists(st.sampled_from(ESC_BODY_ATOMS), max_size=max_size).map(lambda xs: "".join(xs)[:max_size])
+
 
 @st.composite
 def _case(draw):
@@ -64,7 +87,8 @@ def _case(draw):
     long_text = draw(st.integers(0, 9)) == 0
     maxlen = 60 if long_text else 11
     structured = draw(st.booleans())
-    body_alpha = st.sampled_from(ALPHA)
+    esc = draw(st.integers(0, 2)) == 0  # one case in three draws its bodies from the escape atoms
+    body = lambda size: _body(esc, ALPHA, size)  # noqa: E731
     if structured:
         parts = []
         if prefix and draw(st.integers(0, 5)) > 0:
@@ -72,16 +96,16 @@ def _case(draw):
         elif prefix and draw(st.booleans()):
             parts.append(prefix[: draw(st.integers(1, len(prefix)))])  # a proper piece of the prefix
         room = max(0, maxlen - sum(map(len, parts)) - 3)
-        parts.append(draw(st.text(body_alpha, max_size=min(room, 8 if not long_text else 50))))
+        parts.append(draw(body(min(room, 8 if not long_text else 50))))
         if suffix and draw(st.booleans()):
             parts.append(suffix)
         if stop and draw(st.booleans()):
             s = draw(st.sampled_from(stop))
             parts.append(s if draw(st.integers(0, 3)) > 0 else s[: draw(st.integers(1, len(s)))])
-            parts.append(draw(st.text(body_alpha, max_size=3)))
+            parts.append(draw(body(3)))
         text = "".join(parts)
     else:
-        text = draw(st.text(body_alpha, max_size=maxlen))
+        text = draw(body(maxlen))
     if len(text) <= 11:
         chunkings = "all"
     else:
@@ -97,19 +121,26 @@ def _case(draw):
 @st.composite
 def _generated_patterns_case(draw):
     """Patterns themselves are generated over a 3-letter alphabet (repeated first characters, stops that are prefixes of
-    each other, several stops in any list order), texts over the same alphabet so that full and partial occurrences abound."""
-    pat = lambda lo, hi: st.text(GEN_ALPHA, min_size=lo, max_size=hi)  # noqa: E731
+    each other, several stops in any list order), texts over the same alphabet so that full and partial occurrences abound.
+    One case in three uses an escape alphabet instead: {backslash, one drawn escape letter, real newline or 'a'}, so that
+    patterns and texts contain backslash+letter pairs (and the real newline next to its escaped spelling)."""
+    alpha = GEN_ALPHA
+    if draw(st.integers(0, 2)) == 0:
+        letter = draw(st.sampled_from(ESC_LETTERS))
+        third = draw(st.sampled_from("\na"))
+        alpha = BACKSLASH + (letter if letter != BACKSLASH else "b") + third
+    pat = lambda lo, hi: st.text(alpha, min_size=lo, max_size=hi)  # noqa: E731
     prefix = draw(st.one_of(st.none(), pat(1, 3)))
     suffix = draw(st.one_of(st.none(), st.none(), pat(1, 2)))
     stop = draw(st.lists(pat(1, 4), max_size=3, unique=True))
     parts = []
     if prefix and draw(st.integers(0, 3)) > 0:
         parts.append(prefix)
-    parts.append(draw(st.text(GEN_ALPHA, max_size=6)))
+    parts.append(draw(st.text(alpha, max_size=6)))
     for sseq in draw(st.permutations(stop)):
         if draw(st.booleans()):
             parts.append(sseq)
-            parts.append(draw(st.text(GEN_ALPHA, max_size=2)))
+            parts.append(draw(st.text(alpha, max_size=2)))
     if suffix and draw(st.booleans()):
         parts.append(suffix)
     text = "".join(parts)[:11]
@@ -123,6 +154,9 @@ def strategy(tier):
 def enumerate_cases(tier):
     # a fixed core of tiny texts under every configuration (deterministic part of the search)
     texts = ['  "hi"', '  "a"\nb', 'Bot message: "', 'a"', '"', "", 'ab"\nab', "a\nuser b", '  ""', '  "a" b"']
+    # escape family: every backslash+letter pair bare, between letters, and inside the quoted message shape
+    for atom in ESC_ATOMS:
+        texts += [atom, "a" + atom + "b", '  "' + atom + '"\nb']
     for t in texts:
         for p in PREFIXES:
             for s in SUFFIXES:
@@ -259,6 +293,12 @@ def prop(case):
     ]
     if ambiguous:
         labels.append("ambiguous-suffix-vs-stop")
+    if BACKSLASH in text:
+        labels.append("backslash")
+        if any(a in text for a in ESC_ATOMS):
+            labels.append("backslash+letter")
+        if any(BACKSLASH in p for p in [prefix, suffix] + list(stop) if p):
+            labels.append("backslash-in-pattern")
     if case.get("gen_patterns"):
         labels.append("generated-patterns")
         if len(stop) >= 2:
